@@ -1,4 +1,5 @@
 #!/bin/bash
 # usage: run.sh [quick|thorough]  -> prints one JSON line
-/verif/harness-loom/build.sh || exit 2
-exec /verif/harness-loom/target/release/dsiv-loom "${1:-quick}"
+D=$(dirname "$(readlink -f "$0")")
+"$D/build.sh" || exit 2
+exec "$D/target/release/dsiv-loom" "${1:-quick}"
